@@ -66,6 +66,8 @@ Proof.
   - (* take, channel *) rewrite (C eq_refl) in *; simpl in *. intros a b Hb. rewrite app_nil_r in *. auto.
   - (* send buffered: bufsz = 0 contradiction *) intros E. rewrite E in *. discriminate.
   - (* recv *) intros E. rewrite (C0 E) in *. discriminate.
+  - (* skip: the output filter removes the head *) intros a b Hb. apply F. simpl. apply before_remove_mid; auto.
+  - intros a b Hb. apply F. simpl. apply before_remove_mid; auto.
 Qed.
 
 Lemma invo_reach : forall st, reach c wake st -> InvO st.
